@@ -444,6 +444,32 @@ def run(ctx):
     else:
         ctx.fail("C10.R4", "distinct-names", "psutil/__init__.py", 0, "<module>",
                  f"disk and network counters share a history name: {names}")
+    # the history is forgotten only at the caller's request: nothing inside the
+    # library calls a cache_clear of the wrapper (a nowrap=False call, an error path
+    # or a refresh that cleared it would let the next nowrap=True figure drop)
+    callers = []
+    for mn_ in ("psutil", "_common", "_pslinux"):
+        for g_ in repo.all_funcs(mn_):
+            for c_ in ast.walk(g_.node):
+                if isinstance(c_, ast.Call) and isinstance(c_.func, ast.Attribute) \
+                        and c_.func.attr == "cache_clear" \
+                        and (dotted(c_.func.value) or "").split(".")[-1] in (
+                            "disk_io_counters", "net_io_counters", "wrap_numbers",
+                            "_wrap_numbers", "self"):
+                    if dotted(c_.func.value) == "self" and g_.cls != "_WrapNumbers":
+                        continue
+                    if g_.cls == "_WrapNumbers" and g_.name == "cache_clear":
+                        continue
+                    callers.append((g_, c_))
+    if callers:
+        for g_, c_ in callers:
+            ctx.fail("C10.R4", f"internal-clear:{g_.fq}", g_.file, c_.lineno, g_.qual,
+                     f"`{norm_stmt(c_)}` inside {g_.qual}(): the nowrap history is dropped "
+                     f"without the user asking, so the next nowrap=True value can be lower "
+                     f"than the previous one")
+    else:
+        ctx.ok("C10.R4", "internal-clear", nontrivial=False,
+               sample="no library function calls a wrap_numbers cache_clear")
     ctx.assume("raw counters are non-negative; with out = I + R and R' = R + O exactly "
                "when I < O: out' - out = I' - I >= 0 if no wrap, and = I' >= 0 after a "
                "wrap (inductive step documented in DESIGN.md)")
